@@ -9,11 +9,24 @@ PAM_HOOKS = {
 KEYS['federation_c20'] = {'pkg': 'lib/controller/federation', 'hooks': PAM_HOOKS}
 
 CHECKS['C20'] = {
-    'ready': False,
+    'ready': True,
     'level': 'exploration',
-    'rule': 'tbd',
-    'assumptions': [],
+    'rule': 'local cluster + 1-3 remotes + an unknown prefix; 0-6 existing and 0-2 missing objects per cluster (backends also hold '
+            'copies of foreign objects, every item is tagged with the backend that produced it); 1-3 uuid filters ("=", "in" with '
+            '[]string / []interface{} incl. non-strings) with duplicates, malformed lengths and intersections that narrow; 30% of the '
+            'cases perturb count/limit/offset/order/other filters/select/MaxItemsPerResponse/bypass/forwarded/ill-typed operand; '
+            'per-backend paging plan (all at once, one at a time, random sizes, rotating order) and, in 40%, one fault at a generated '
+            'call (error, no-progress page once or for ever, premature empty page, repeated item); 5 object types. Non-trivial = a '
+            'federated query over >=2 clusters that needed several pages or met a fault, or an unsplittable multi-cluster query, or '
+            'an unknown cluster; distinct = fingerprint of (type, filters, options, page limit, class, complete call log).',
+    'assumptions': [
+        'lib/controller/localdb/login_pam.go is replaced at build time by a PAM-free stand-in (missing C header in the sandbox)',
+        'honest backends honour the uuid filter they are given; a premature empty page is undetectable by design (result only checked for soundness); a backend repeating already delivered items is outside the stated paging behaviours (termination only)',
+        'single-remote queries with count/limit/offset/order are not "spanning several clusters": a rejection must precede any call, an answer must be sound',
+        'ill-typed uuid operands: outcome adopted',
+        'termination is judged by the number of recorded backend calls (bound n+1 per backend; stubs stop a runaway loop after 120 calls), never by the clock',
+    ],
     'units': [
-        unit('list', 'federation_c20', '^TestVerifC20', {'shards': 8, 'checks': 2000}, {'shards': 16, 'checks': 100000, 'timeout': 1500}),
+        unit('list', 'federation_c20', '^TestVerifC20', {'shards': 8, 'checks': 2000}, {'shards': 16, 'checks': 60000, 'timeout': 1500}),
     ],
 }
